@@ -6,6 +6,7 @@ package harness
 import (
 	"encoding/json"
 	"fmt"
+	"strings"
 
 	"verifsim/model"
 )
@@ -21,6 +22,16 @@ type SourcePlan struct {
 	// LagMax > 0: every replica URL but the first may be up to LagMax blocks
 	// behind (drawn per request while faults are on)
 	LagMax int `json:"lag_max,omitempty"`
+	// WS: the source has a ws_url; heads are pushed over a subscription
+	// instead of being polled
+	WS bool `json:"ws,omitempty"`
+}
+
+// PrunePlan: a background pruner of position rows (keep the newest Keep rows
+// of every pair, every EveryMs of simulated time).
+type PrunePlan struct {
+	Keep    int `json:"keep"`
+	EveryMs int `json:"every_ms"`
 }
 
 // EventSpec is an event the content generator may emit (declared or decoy).
@@ -84,6 +95,7 @@ type FaultPlan struct {
 }
 
 type Plan struct {
+	Prune    *PrunePlan    `json:"prune,omitempty"`
 	Prop     string        `json:"prop"`
 	Seed     uint64        `json:"seed"`
 	Sources  []SourcePlan  `json:"sources"`
@@ -156,6 +168,7 @@ func (p *Plan) ConfigJSON(urlsFor func(src string) []string) ([]byte, error) {
 		Poll        string   `json:"poll_duration"`
 		Concurrency int      `json:"concurrency"`
 		BatchSize   int      `json:"batch_size"`
+		WSURL       string   `json:"ws_url,omitempty"`
 	}
 	root := struct {
 		PGURL        string        `json:"pg_url"`
@@ -163,7 +176,11 @@ func (p *Plan) ConfigJSON(urlsFor func(src string) []string) ([]byte, error) {
 		Integrations []*model.Decl `json:"integrations"`
 	}{PGURL: "postgres://sim/shovel"}
 	for _, s := range p.Sources {
-		root.Sources = append(root.Sources, srcJSON{s.Name, s.ChainID, urlsFor(s.Name), fmt.Sprintf("%dms", s.PollMs), s.Conc, s.Batch})
+		sj := srcJSON{s.Name, s.ChainID, urlsFor(s.Name), fmt.Sprintf("%dms", s.PollMs), s.Conc, s.Batch, ""}
+		if s.WS && len(sj.URLs) > 0 {
+			sj.WSURL = "ws://" + strings.TrimPrefix(sj.URLs[0], "http://")
+		}
+		root.Sources = append(root.Sources, sj)
 	}
 	root.Integrations = p.Decls
 	return json.Marshal(root)
@@ -190,4 +207,30 @@ type ScriptedChain struct {
 	N      int    `json:"n,omitempty"`
 	Depth  int    `json:"depth,omitempty"`
 	NewLen int    `json:"new_len,omitempty"`
+}
+
+// Normalize settles options that depend on one another once a generator is
+// done. Pruning: an unwind needs the position rows below the fork; the
+// property speaks of replacements "within the retained position history", so
+// on histories with replacements the pruner keeps what the binary keeps (200
+// rows, more than any sequence of replacements of the plan can orphan), and is
+// left out where that cannot be guaranteed. Small counts are used on histories
+// that only grow.
+func (p *Plan) Normalize() {
+	if p.Prune == nil {
+		return
+	}
+	worst := p.Faults.MaxReorgs * max(p.Faults.MaxReorgDepth, 1)
+	for _, sc := range p.ScriptChain {
+		if sc.Action == "reorg" {
+			worst += max(sc.Depth, 1)
+		}
+	}
+	switch {
+	case worst == 0:
+	case worst < 190:
+		p.Prune.Keep = 200
+	default:
+		p.Prune = nil
+	}
 }
